@@ -25,7 +25,7 @@ for pid in want:
     prev = ''
     if earlier:
         prev = ('\nIMPORTANT: other engineers already produced the following changes for this property; yours must be DIFFERENT in kind and located in a '
-                'different function / mechanism (ideally exercising a different clause of the property statement, a different module or class, or a different kind of input):\n---\n'
+                'different function / mechanism (ideally exercising a different clause of the property statement, a different module or class - e.g. one of the less prominent dataset classes, constructors or helper functions that the property also covers - or a different kind of input, history or parameter value):\n---\n'
                 + '\n---\n'.join(earlier) + '\n---\n')
     body = f"""You are testing how well a verification harness detects subtle bugs. You get ONE semantic property of the Python library fgnt/lazy_dataset (a lazy dataset pipeline library: map/filter/slice/shuffle/batch/zip/cache combinators plus threaded/process prefetch) and your own scratch git worktree of the repository at {wt} (work ONLY inside that directory; never touch /repo or /verif, and never run pytest or anything else with /repo as working directory (it would overwrite files there); do not run git commands other than `git -C {wt} diff` / `git -C {wt} status`).
 
